@@ -289,4 +289,137 @@ def direct (c : Cfg) (recs : List Record) (s e : Int) : List Add :=
 def directAll (c : Cfg) (recs : List Record) : List Add :=
   (timed 0 recs).filterMap fun te => contribution c te.2
 
+/-! ### The list-mode objective function
+
+`stir::PoissonLogLikelihoodWithLinearModelForMeanAndListModeDataWithProjMatrixByBin`
+(src/recon_buildblock/PoissonLogLikelihoodWithLinearModelForMeanAndListModeDataWithProjMatrixByBin.cxx, base class
+…AndListModeData.cxx) and `LM_distributable_computation` (src/include/stir/recon_buildblock/distributable.txx:39).
+Data here: the bin the decoder returns for an event (as above), and per bin the row of the projection matrix
+(`ProjMatrixByBin::get_proj_matrix_elems_for_one_bin`, property C03/C04's business), the additive term at the bin and the
+view of its basic bin under the symmetries of the matrix.  Not modelled: cache files on disk (what is written is what
+is read back), OpenMP, the value/Hessian functions, `max_quotient` (dead for the gradient: the test at l.768 only
+returns early inside `if (do_value)`). -/
+
+/-- the state of the object after `set_up()` that the event reading depends on
+    (…AndListModeData.cxx:268 `do_time_frame`, l.305-320 frame, …ByBin.cxx:319-334 cache size) -/
+structure LmCfg where
+  /-- ranges of `proj_data_info_sptr` (the list-mode geometry reduced to the processed segments) -/
+  tpl : Template
+  doTimeFrame : Bool
+  /-- `frame_defs.get_start_time(current_frame_num)` / `get_end_time`, ms -/
+  startT : Int
+  endT : Int
+  /-- `num_events_to_use` -/
+  numEventsToUse : Int
+  /-- `cache_size` (number of events of one batch; 1000000 when no cache files are used) -/
+  cacheSize : Nat
+
+/-- result of one call of `read_listmode_batch` (…ByBin.cxx:450): the events put into `record_cache`, the return value
+    `stop_caching`, and what `get_next_record` will deliver next -/
+structure LmBatch where
+  bins : List Bin
+  stop : Bool
+  rest : List Record
+
+/-- the `while (true)` loop of `read_listmode_batch` (l.477-537): `n` = `cached_events` = `record_cache.size()`,
+    `cur` = `current_time`, `prev` = number of events in the earlier batches.
+    `num_events_to_use` (l.527) counts the events of ALL batches, as after the proposed fix C14-5
+    (`ibatch * cache_size + cached_events`); the unrepaired code compares the counter of the current batch only
+    (known finding `lmobj:num_events_to_use-is-counted-per-batch`; the harness reports such runs and does not compare them) -/
+def lmReadBatch (c : LmCfg) (prev : Nat) : Nat → Int → List Record → LmBatch
+  | _, _, [] => ⟨[], true, []⟩                                  -- get_next_record == Succeeded::no
+  | n, _, .time t :: rs =>
+    if c.doTimeFrame && t ≥ c.endT then ⟨[], true, rs⟩            -- l.487
+    else lmReadBatch c prev n t rs                                -- (l.493 `continue` or fall through: not an event)
+  | n, cur, .event e :: rs =>
+    if cur < c.startT then lmReadBatch c prev n cur rs            -- l.493
+    else if e.prompt then
+      match getBinFromEvent c.tpl e with                          -- bin value != 1 or segment outside (l.501-502)
+      | none => lmReadBatch c prev n cur rs
+      | some b =>
+        if inRange c.tpl b then                                   -- l.503-508
+          if c.numEventsToUse > 0 && (((prev + n : Nat) : Int) + 1 ≥ c.numEventsToUse) then ⟨[b], true, rs⟩   -- l.527
+          else if n + 1 = c.cacheSize then ⟨[b], false, rs⟩       -- l.534 cache is full
+          else
+            let o := lmReadBatch c prev (n + 1) cur rs
+            ⟨b :: o.bins, o.stop, o.rest⟩
+        else lmReadBatch c prev n cur rs
+    else lmReadBatch c prev n cur rs
+
+/-- the batches in reading order (`cache_listmode_file` l.642-656, or the `while (true)` loops of the compute functions):
+    the first batch starts at `current_time = 0` after `reset()`, every later one at
+    `end_time_per_batch[ibatch-1]` = the END time of the frame (l.457, l.541) -/
+def lmBatches (c : LmCfg) : Nat → Bool → Nat → List Record → List (List Bin)
+  | 0, _, _, _ => []
+  | fuel + 1, first, prev, recs =>
+    let o := lmReadBatch c prev 0 (if first then 0 else c.endT) recs
+    if o.stop then [o.bins] else o.bins :: lmBatches c fuel false (prev + o.bins.length) o.rest
+
+/-- all batches of a stream (every batch that does not stop consumes at least one record) -/
+def lmEvents (c : LmCfg) (recs : List Record) : List (List Bin) := lmBatches c (recs.length + 1) true 0 recs
+
+/-- reading with an unlimited cache and without `num_events_to_use`: the specification of the batches -/
+def lmReadAll (c : LmCfg) : Int → List Record → List Bin
+  | _, [] => []
+  | _, .time t :: rs => if c.doTimeFrame && t ≥ c.endT then [] else lmReadAll c t rs
+  | cur, .event e :: rs =>
+    if cur < c.startT then lmReadAll c cur rs
+    else if e.prompt then
+      match getBinFromEvent c.tpl e with
+      | none => lmReadAll c cur rs
+      | some b => if inRange c.tpl b then b :: lmReadAll c cur rs else lmReadAll c cur rs
+    else lmReadAll c cur rs
+
+section LmGradient
+variable {K : Type} [_root_.Add K] [Mul K] [Div K] [OfNat K 0]   -- (`Add` is the abbreviation above)
+
+/-- `Σ l` -/
+def sumList : List K → K
+  | [] => 0
+  | a :: l => a + sumList l
+
+/-- what the computation reads for a bin -/
+structure LmBinData (K : Type) where
+  /-- row of the projection matrix: (voxel, element) -/
+  row : List (Nat × K)
+  /-- `record.my_corr` as it should be: the additive term AT THE BIN of the event (0 when `has_add` is false) -/
+  add : K
+  /-- `view_num()` of the basic bin (`find_basic_bin`) -/
+  basicView : Int
+
+/-- `ProjMatrixElemsForOneBin::forward_project(bin, image)` -/
+def lmFwd (img : Nat → K) (row : List (Nat × K)) : K := sumList (row.map fun e => e.2 * img e.1)
+
+/-- the subset test of `LM_distributable_computation` (distributable.txx:128-138; C `%` on ints) -/
+def inSubset (nsub subset : Int) (basicView : Int) : Bool := decide (nsub ≤ 1) || (Int.tmod basicView nsub == subset)
+
+/-- `LM_gradient_and_value<true,false>` (…ByBin.cxx:755) for one event: `row.back_project(output, bin)` with bin value
+    `1 / (row·image + add)`: the list of additions `output[voxel] += element · value` -/
+def lmEventContribs (img : Nat → K) (d : LmBinData K) : List (Nat × K) :=
+  let q := lmFwd img d.row + d.add
+  d.row.map fun e => (e.1, e.2 / q)
+
+/-- `actual_compute_subset_gradient_without_penalty(…, add_sensitivity = true)` (…ByBin.cxx:913): all additions to the
+    output image, batch after batch (accumulate = icache != 0), event after event of the subset -/
+def lmContribs (data : Bin → LmBinData K) (img : Nat → K) (nsub subset : Int) (batches : List (List Bin)) : List (Nat × K) :=
+  batches.flatMap fun bt =>
+    (bt.filter fun b => inSubset nsub subset (data b).basicView).flatMap fun b => lmEventContribs img (data b)
+
+/-- value of the image described by a list of additions at voxel `v` (the image starts as zeros: `fill(0)` at
+    distributable.txx:67 for the first batch) -/
+def imageAt (cs : List (Nat × K)) (v : Nat) : K := sumList (cs.map fun e => if e.1 = v then e.2 else 0)
+
+/-- the same, accumulated into an array of `n` voxels (what the driver executes; `accumulate_getD` in ProofsLmObj) -/
+def accumulate (n : Nat) (cs : List (Nat × K)) : Array K :=
+  cs.foldl (fun arr e => arr.modify e.1 (fun s => s + e.2)) (Array.replicate n 0)
+
+/-- the list-mode gradient plus sensitivity at voxel `v` -/
+def lmGps (data : Bin → LmBinData K) (img : Nat → K) (nsub subset : Int) (batches : List (List Bin)) (v : Nat) : K :=
+  imageAt (lmContribs data img nsub subset batches) v
+
+/-- the element(s) of a row at voxel `v` -/
+def rowAt (row : List (Nat × K)) (v : Nat) : K := sumList (row.map fun e => if e.1 = v then e.2 else 0)
+
+end LmGradient
+
 end StirVerif.C14
